@@ -67,6 +67,11 @@ Definition m_this : fn := method "m" 14 [par a_ PosOrKw AInt None] plain_text.
 Definition m_self : fn := method "m" self_name [par a_ PosOrKw AInt None] (tflags false false false false 0).
 (* instance method m(self, star-args: int) -> int *)
 Definition m_varargs : fn := method "m" self_name [par args_ VarPos AInt None] (tflags true false false false 0).
+(* static method s(star-args: int) -> int of a @pedantic_class *)
+Definition s_varargs : fn :=
+  {| f_name := "s"; f_dotted := true; f_params := [par args_ VarPos AInt None]; f_bound := None; f_first_arg := None;
+     f_ret := Some AInt; f_coroutine := false; f_generator := false; f_text := tflags true true false false 1;
+     f_setter := false; f_recv := false |}.
 (* class method c(cls, a: int) -> int of a @pedantic_class: the decorator receives the bound method *)
 Definition c_bound : fn :=
   {| f_name := "c"; f_dotted := true; f_params := [par a_ PosOrKw AInt None]; f_bound := Some (cls_, K_cls); f_first_arg := Some cls_;
